@@ -4,6 +4,7 @@ import FlatccModel.ScanSwap
 import FlatccModel.Refmap
 import FlatccModel.Reader
 import FlatccModel.Ident
+import FlatccModel.Emitter
 /-! `fmodel`: executes the model's definitions on protocol lines (stdin → stdout, one result line per op line). -/
 open Flatcc Flatcc.Util
 
@@ -225,11 +226,49 @@ def identOp (args : List String) : String :=
     | some s => "id " ++ bytesToHex s
   | _ => "bad-op"
 
+def fnvBytes (l : List Nat) : Nat := l.foldl (fun h b => ((h ^^^ (b % 256)) * 16777619) % 4294967296) 2166136261
+
+def hex8 (n : Nat) : String :=
+  String.ofList ((List.range 8).reverse.map (fun i => hexDigit (n / 16 ^ i % 16)))
+
+/-- emit <ops>: see harness/h_emit.c -/
+def emitOp (args : List String) : String :=
+  open Flatcc.Emitter in
+  match args with
+  | [opsS] =>
+    let toks := opsS.splitOn ","
+    let gen (ctr len : Nat) : List Nat := (List.range len).map (fun i => ((ctr + i) * 131 + 7) % 251)
+    let (s, _, outs) := toks.foldl (fun (acc : Em × Nat × List String) t =>
+      let (s, ctr, outs) := acc
+      if t.startsWith "f" || t.startsWith "b" then
+        let sizes := ((t.drop 1).toString.splitOn "+").map natArg
+        let len := sizes.sum
+        let data := gen ctr len
+        let pieces := (sizes.foldl (fun (a : List (List Nat) × List Nat) n => (a.1 ++ [a.2.take n], a.2.drop n)) ([], data)).1
+        let s' := if t.startsWith "f" then emitFront s pieces else emitBack s pieces
+        (s', ctr + len, outs ++ ["0"])
+      else if t == "c" || t.startsWith "k" then
+        let size := s.used
+        let bufsize := if t == "c" then size else natArg (t.drop 1).toString
+        let d := match directBuffer s with
+          | some l => s!"y:{size}:{hex8 (fnvBytes l)}"
+          | none => "n"
+        let c := match copyBuffer s bufsize with
+          | some l => s!"ok:{hex8 (fnvBytes l)}"
+          | none => "null"
+        (s, ctr, outs ++ [s!"size={size} direct={d} copy={c}"])
+      else if t == "R" then (reset s, ctr, outs ++ ["R"])
+      else if t == "C" then (Em.init s.page, ctr, outs ++ ["C"])
+      else (s, ctr, outs ++ ["?"])) (Em.init Flatcc.Consts.emitterPageSize, 0, [])
+    " ".intercalate outs ++ s!" cap={s.capacity}"
+  | _ => "bad-op"
+
 def step (line : String) : String :=
   match line.trimAscii.toString.splitOn " " with
   | "num" :: args => numOp args
   | "refmap" :: args => refmapOp args
   | "ident" :: args => identOp args
+  | "emit" :: args => emitOp args
   | "sort" :: args => sortOp ("sort" :: args)
   | "find" :: args => sortOp ("find" :: args)
   | "findn" :: args => sortOp ("findn" :: args)
